@@ -42,7 +42,8 @@ STEPS = 30
 TIME = 3.0
 CALL_HORIZON = 100_000      # controller calls per evaluate()
 OPS = [("ev", 0), ("ev", 1), ("ev", 2), ("ev", 3), ("ev", 4), ("init",),
-       ("model", 1), ("model", 2), ("raw",), ("diff",), ("patch",)]
+       ("model", 1), ("model", 2), ("model", 3), ("raw",), ("diff",),
+       ("patch",)]
 XNAMES = ("zero", "stabilising", "mildly-diverging", "strongly-diverging",
           "immediately-insane")
 INIT = (0, False, ())
@@ -196,7 +197,9 @@ class Config:
             for i in range(n):
                 out[i] = 0.5 * state[(i + 1) % n] - 0.25 * state[i]
             out[n - 1] += 0.5 * control[0] + 0.01 * t
-        self.eqs = {0: sm.equations, 1: m1, 2: m2}
+        # model 3 is the 'perfect surrogate': the system's own equations
+        # handed over as a model (still model mode: nothing is recorded)
+        self.eqs = {0: sm.equations, 1: m1, 2: m2, 3: sm.equations}
         self.val = {}
         self.sc = {}
         self.df = {}
@@ -213,7 +216,7 @@ class Config:
     def build_model(self):
         from moptipyapps.dynamic_control import ode
         sm = self.system
-        for mode in (0, 1, 2):
+        for mode in (0, 1, 2, 3):
             for k, x in enumerate(self.xs):
                 js_ = []
                 scs = []
